@@ -252,20 +252,10 @@ def argparse_function(
                                         ctx=Load(),
                                         elts=[
                                             Name("argument_parser", Load()),
-                                            set_value(
+                                            ast.parse(
                                                 intermediate_repr["returns"][
                                                     "return_type"
-                                                ]["default"]
-                                            )
-                                            if code_quoted(
-                                                intermediate_repr["returns"][
-                                                    "return_type"
-                                                ]["default"]
-                                            )
-                                            else ast.parse(
-                                                intermediate_repr["returns"][
-                                                    "return_type"
-                                                ]["default"]
+                                                ]["default"].strip("`")
                                             )
                                             .body[0]
                                             .value,
